@@ -75,7 +75,7 @@ def get_initial_composition(
     if illegal_component_wells:
         raise ValueError(f"Invalid component name keys: {illegal_component_wells}")
 
-    is_multiwell = len(real_wells) > 1
+    is_multiwell = np.size(real_wells) > 1
     composition: Dict[str, np.ndarray] = {}
     for idx, w in np.ndenumerate(real_wells):
         # Ignore None-valued component names, but don't allow naming of empty wells.
